@@ -2,7 +2,7 @@
 
 Every instance carries `v`, a unique id, so a probe identifies the supplier it observed.
   D1, D2      all-default types (ctx.state(T) can default-construct them)
-  R1, R2, R3  types with a required attribute (MissingState when not supplied; R3's constructor fails with
+  R1..R4      types with a required attribute (MissingState when not supplied; R3's constructor fails with
               ValueError / ExceptionGroup instead of TypeError)
   SubD1       subclass of D1: supplying SubD1 must not satisfy a D1 lookup and vice versa
   Box[int], Box[str]  two specialisations of one generic (required attribute)
@@ -39,6 +39,13 @@ class R3(State):
     either: int | str
 
 
+class R4(State):
+    """first required attribute is a union: its absence makes construction fail with an ExceptionGroup"""
+
+    first: int | None
+    v: int = 0
+
+
 class SubD1(D1):
     extra: int = 0
 
@@ -50,7 +57,7 @@ class Box[T](State):
 BoxInt = Box[int]
 BoxStr = Box[str]
 
-TYPES = {"D1": D1, "D2": D2, "R1": R1, "R2": R2, "R3": R3, "SubD1": SubD1, "BoxInt": BoxInt, "BoxStr": BoxStr}
+TYPES = {"D1": D1, "D2": D2, "R1": R1, "R2": R2, "R3": R3, "R4": R4, "SubD1": SubD1, "BoxInt": BoxInt, "BoxStr": BoxStr}
 DEFAULTABLE = {"D1", "D2", "SubD1"}
 NAMES = list(TYPES)
 
@@ -61,6 +68,8 @@ def make(tname: str, uid: int):
         return BoxStr(v=str(uid))
     if tname == "R3":
         return R3(v=uid, mode="y", either="e")
+    if tname == "R4":
+        return R4(first=None, v=uid)
     return TYPES[tname](v=uid)
 
 
